@@ -463,5 +463,5 @@ def run_rewrite(case):
 def main(tier, seed, workers=None):
     run = Run(PROP, "exploration", tier, seed, RULE)
     run.assumptions = ["expected records are built through the public constructor from the model's (name, fields, values)"]
-    explore(run, cases(tier, seed), run_case, workers, chunk=32)
+    explore(run, cases(tier, seed), run_case, workers, chunk=32, reversed_pass=(tier == "thorough"))
     return run.finish(lambda case: [v[0] for v in run_case(case)["viol"]])
